@@ -12,7 +12,7 @@ import json, os, re
 import vcommon as V
 
 META = dict(
-    text="Lean 4 + regenerated inventory + crash search through every script-facing entry point. T1: on every run the extractor rebuilds from the Go source the set of functions reachable from EvalString/LoadString/LoadExpressions/Run/EvalExpressions/ParseTokens/ParsingIter/the REPL line reader/every SexpString method WITHOUT crossing a deferred recover(), with the index, slice, unchecked-type-assertion, explicit-panic, division and map-write operations each holds; `inventory_classified` (decide over the whole table) requires each to be classified as sites/behaviour/residual, so a new unrecovered function with a panic-capable operation breaks the proof; `stack_pushes_typed` fixes what is pushed on which VM stack. Proved for all inputs: the `{` look-ahead never indexes the token queue out of range (every parser state, distance, continuation); the index/slice expressions of dumpBuffer/DecodeAtom/DecodeChar are in range for every buffer; the panic-capable GenerateAssignment (ListToArray+panicOn) is reached from Generate's pair case by proper lists only (and a regenerated table fact pins the guard order in the source); the argument prologues of 21 special-form generators (incl. buildSexpFun) never index outside their argument list, for every argument list and any non-panicking sub-generator (Go int arithmetic modelled in Int, so args[size-1] with size=0 is a panic: pre-repair (and) and (mdef (hash) ..) are proved counterexamples); the VM's typed pops, call prologue, scope/stack-mark pops and symbol binding keep the stacks free of nil cells and do not panic on such stacks. T2: channel `crash` feeds the real EvalString(+SexpString), LoadString+Run, ParseTokens chunk API, EvalExpressions, macexpand, the REPL line reader in-process and the real Repl() in a child process with every string over a 26-symbol token alphabet up to length 4 (35 symbols to length 3), every sequence of up to 4 tokens from `a b 1 = := \\ ( ) [ ] ' : & *` inside ( ) [ ] { }, mutations of tests/*.zy, 43 statement forms inside 13 function shapes (tail calls, loops, package bodies), 51 data-not-code fillers (improper lists, assignments, infix blocks) in every position of 41 templates, every special form/reserved word/bound name of three configurations x 0..3 assorted arguments in 26 contexts, value pairs through binding/container/printing templates, infix token sequences and 380 regression texts; after every text the stack depths are recorded and a follow-up battery (def, defn+call, let, for, defmac+call, str of a hash) runs on the SAME interpreter, so a text that silently corrupts a long-lived interpreter is exposed; any Go panic, nil value with nil error or process death is a failing input with replay. The Lean front-end model is compared on the status of every ParseTokens call (hash per enumeration range), the prologue model on which argument lists LoadString must refuse, the VM model on the outcome class of every `eval` text. A unit test feeds a few dozen malformed inputs; the theorems cover every input of the modelled sites and the table covers every function of the current tree.",
+    text="Lean 4 + regenerated inventory + crash search through every script-facing entry point. T1: on every run the extractor rebuilds from the Go source the set of functions reachable from EvalString/LoadString/LoadExpressions/Run/EvalExpressions/ParseTokens/ParsingIter/the REPL line reader/every SexpString method WITHOUT crossing a deferred recover(), with the index, slice, unchecked-type-assertion, explicit-panic, division and map-write operations each holds; `inventory_classified` (decide over the whole table) requires each to be classified as sites/behaviour/residual, so a new unrecovered function with a panic-capable operation breaks the proof; `stack_pushes_typed` fixes what is pushed on which VM stack. Proved for all inputs: the `{` look-ahead never indexes the token queue out of range (every parser state, distance, continuation); the index/slice expressions of dumpBuffer/DecodeAtom/DecodeChar are in range for every buffer; the panic-capable GenerateAssignment (ListToArray+panicOn) is reached from Generate's pair case by proper lists only (and a regenerated table fact pins the guard order in the source); the argument prologues of 21 special-form generators (incl. buildSexpFun) never index outside their argument list, for every argument list and any non-panicking sub-generator (Go int arithmetic modelled in Int, so args[size-1] with size=0 is a panic: pre-repair (and) and (mdef (hash) ..) are proved counterexamples); the VM's typed pops, call prologue, scope/stack-mark pops and symbol binding keep the stacks free of nil cells and do not panic on such stacks. T2: channel `crash` feeds the real EvalString(+SexpString), LoadString+Run, ParseTokens chunk API, EvalExpressions, macexpand, the REPL line reader in-process and the real Repl() in a child process with every string over a 26-symbol token alphabet up to length 4 (35 symbols to length 3), every sequence of up to 4 tokens from `a b 1 = := \\ ( ) [ ] ' : & *` inside ( ) [ ] { }, mutations of tests/*.zy, 43 statement forms inside 13 function shapes (tail calls, loops, package bodies), 51 data-not-code fillers (improper lists, assignments, infix blocks) in every position of 41 templates, every special form/reserved word/bound name of three configurations x 0..3 assorted arguments in 26 contexts, every special form and reserved word x EVERY pool element as its only operand inside a loop body and inside a function body and as its first operand before a loop header (not sampled), value pairs through binding/container/printing templates, infix token sequences and 380 regression texts; after every text the stack depths are recorded and a follow-up battery (def, defn+call, let, for, defmac+call, str of a hash) runs on the SAME interpreter, so a text that silently corrupts a long-lived interpreter is exposed; any Go panic, nil value with nil error or process death is a failing input with replay. The Lean front-end model is compared on the status of every ParseTokens call (hash per enumeration range), the prologue model on which argument lists LoadString must refuse, the VM model on the outcome class of every `eval` text. A unit test feeds a few dozen malformed inputs; the theorems cover every input of the modelled sites and the table covers every function of the current tree.",
     note="Partial. Proved on site models, not on a translation of the Go code: Model/GenSites, Model/FrontSites and the parser's peekAt are hand-written after the code and tied behaviourally (P: and G: columns, crash search). VM model: c01_no_panic_served (Props/C01.lean §5b, from C04's three contracts of the VM's mutual block - normal returns, errors, no host panic - by induction on the fuel over all 13 interpreter functions) is proved with NO hypothesis: every text of the model generator's grammar Bal.okLs (all core forms, loops, break/continue, functions, closures, tail calls, lazy parameters, apply/map/force), from every state reached from the fresh interpreter by value-returning and erroring texts of that grammar, with any fuel, never has outcome class panic (the `Fits` hypothesis of c01_no_panic_partial is gone: binds never meet an empty scope stack, typed pops never meet a nil cell, because nil cells only come from restoreControlState growing a stack, every restore on a normal return is exact, and after an error nothing runs any more). FINDING (c01NoPanic_asFirstStated_false, decide +kernel on a concrete run): the full statement C01NoPanic as first written (no nil cell after EVERY run from EVERY nil-free state) is FALSE - a Run entered with operands on the stack (Apply/map push the arguments, then Run) that fails after consuming them is padded with nil cells by TruncateToSize; Apply's own restore, recorded before the push, truncates the padding away before anything pops it. It is kept visible as a def. REMAINS outside the theorem: the full surface language beyond Bal.okLs (package, return, macros, infix, structs ...: behavioural models + crash search), histories containing compile errors or timeouts (the served states are closed under value-returning and erroring texts only), the front end beyond the site theorems, and the tie of Model/VM.lean to the Go code (eval/crash correspondence). `restore_can_pad` shows the TruncateToSize padding mechanism. 67 functions of the unrecovered region are residual (printing of exotic values, hash/selector helpers, REPL glue, syntax-quote generators): crash search only. Runtime resources are outside the claim: Go stack exhaustion (infinite macro expansion, a self-containing value given to ==/json/Type(), deep non-tail recursion) kills the process and cannot be recovered; the harness bounds each text by a 20000-call budget and a 2 s watchdog and classifies what does not return as `hang` without reporting it. Names that reach outside the process are on a deny list and are never executed. Trusted: Lean kernel (propext, Classical.choice, Quot.sound), the extractor's call graph (calls only; function values by signature), harness, driver.",
     technique="Lean 4 proof over executable front-end, generator-prologue and VM-primitive models with explicit panic-capable primitives + decide over a regenerated panic-site inventory + crash search through every script-facing entry point of the real code",
     design_ref="DESIGN.md §7 C01, §13",
